@@ -235,7 +235,9 @@ PsSignBlind(cs, L, req, sk) ==
       examined == IF bad1 # {} THEN 1..MinOf(bad1) ELSE 1..nn
   IN [ok |-> eq = "ok", eq |-> eq,
       sig |-> [a |-> Dot(req.a, sk.ys), b |-> Add(Mul(h, sk.x), Dot(req.b, sk.ys))],
-      after |-> [req EXCEPT !.d = V([i \in 1..nn |-> IF i \in examined THEN Add(req.d[i], Mul(req.b[i], e)) ELSE req.d[i]])]]
+      \* (the verification works on a copy of d[i]; before the repair 764b8c1 it accumulated d[i]*b[i]^e into the request itself:
+      \*  after |-> [req EXCEPT !.d = V([i \in 1..nn |-> IF i \in examined THEN Add(req.d[i], Mul(req.b[i], e)) ELSE req.d[i]])])
+      after |-> req]
 
 \* ps.go UnBlind: hPrime = b - z*a;  e(g2^-1, hPrime) * e(X + sum Y_i m_i, h) = 1
 PsUnBlind(cs, pk, sig, sec) ==
